@@ -97,4 +97,10 @@ R.contract(M + "_anonymize_value",
                "all(k in lookup and lookup[k] == old(lookup)[k] for k in old(lookup))",
                # a new secret adds exactly one entry
                "size(lookup) <= size(old(lookup)) + 1",
+               # every processed secret is recorded (under the value itself, or under its plaintext for $9$ strings),
+               # and the result carries the recorded replacement: later occurrences get the same one
+               "implies(not %s and not J9Valid(%s[1]), %s[1] in lookup and result == %s[0] + lookup[%s[1]] + %s[2])"
+               % (SKIP, EET0, EET0, EET0, EET0, EET0),
+               "implies(not %s and J9Valid(%s[1]) and J9Dec(%s[1]) != '' and %s[1] not in old(lookup), "
+               "J9Dec(%s[1]) in lookup)" % (SKIP, EET0, EET0, EET0, EET0),
            ])
